@@ -3,7 +3,7 @@ PROPS = {}
 LEMMAS = {}
 NOT_BUILT = {}
 
-SO_MODS = ['contracts.so_tick', 'contracts.so_msg']
+SO_MODS = ['contracts.so_tick', 'contracts.so_msg', 'contracts.so_apply', 'contracts.so_submit']
 
 PROPS['C20'] = dict(
     modules=SO_MODS, units=['tick.leader', 'tick.not-leader', 'hasQuorum'], level='proof',
@@ -24,3 +24,15 @@ PROPS['C04'] = dict(
 PROPS['C01'] = dict(
     modules=SO_MODS, units=['msg.append_entries'], level='proof',
     assumptions=[], trusted=['T-TRANSPORT'], level_text='wip', level_note='wip')
+
+PROPS['C12'] = dict(
+    modules=SO_MODS, units=['applyLogEntries', 'doApplyCommand'], level='proof',
+    assumptions=[], trusted=['T-TRANSPORT'], level_text='wip', level_note='wip')
+
+PROPS['C17'] = dict(
+    modules=SO_MODS, units=['applyLogEntries', 'doApplyCommand'], level='proof',
+    assumptions=[], trusted=['T-PICKLE'], level_text='wip', level_note='wip')
+
+PROPS['C02'] = dict(
+    modules=SO_MODS, units=['FastQueue', 'applyCommand', 'checkCommandsToApply'], level='proof',
+    assumptions=[], trusted=['T-PICKLE'], level_text='wip', level_note='wip')
